@@ -32,6 +32,8 @@ var seqImports = map[string][2]string{
 // packages whose concurrency is put under the controlled scheduler in sched mode
 var schedPkgs = map[string]bool{".": true, "ansi": true, "widgets/spinner": true}
 
+var curFields map[string]map[string]bool
+
 type multi []string
 
 func (m *multi) String() string     { return strings.Join(*m, ",") }
@@ -77,6 +79,24 @@ func main() {
 			ents, err := os.ReadDir(dir)
 			if err != nil {
 				fatal("%v", err)
+			}
+			curFields = nil
+			if *mode == "sched" && schedPkgs[pkg] && len(trackedTypes[pkg]) > 0 {
+				var files []*ast.File
+				for _, e := range ents {
+					name := e.Name()
+					if e.IsDir() || !strings.HasSuffix(name, ".go") || strings.HasSuffix(name, "_test.go") {
+						continue
+					}
+					src := filepath.Join(dir, name)
+					if o, ok := srcOverride[src]; ok {
+						src = o
+					}
+					if f, err := parser.ParseFile(token.NewFileSet(), src, nil, 0); err == nil {
+						files = append(files, f)
+					}
+				}
+				curFields = fieldsOf(files, trackedTypes[pkg])
 			}
 			for _, e := range ents {
 				name := e.Name()
@@ -158,6 +178,12 @@ func rewrite(filename string, src []byte, mode string) ([]byte, bool, error) {
 			return nil, false, err
 		}
 		changed = changed || c
+		if curFields != nil && instrumentAccesses(f, curFields) {
+			if !schedImported {
+				addImport(f, "vsched", modPath+"/verifshim/vsched")
+			}
+			changed = true
+		}
 	}
 	if !changed {
 		return nil, false, nil
